@@ -38,3 +38,38 @@ Theorem C10_supersession_resets_after_cleanup :
   end.
 Proof. exact supersession_resets_after_cleanup. Qed.
 Print Assumptions C10_supersession_resets_after_cleanup.
+
+(* ---------- with traffic routing (Model/RolloutTR.v): traffic is back on stable BEFORE the pods go ---------- *)
+From RV Require Model.TrafficMgr Model.RolloutTR Model.RolloutBG Proofs.Finalising Proofs.RolloutBG.
+
+(* rollback: a reconcile of the cancellation sequence that patches or deletes the BatchRelease (resuming the workload and
+   handing it back is what removes the new-revision pods) finds the canary route already gone and writes nothing to the
+   network.  finv is the invariant that every cancellation history keeps (C04_finalising_history_safe), from any in-memory
+   grace state, i.e. across crashes *)
+Theorem C10_rollback_touches_workload_only_after_traffic_is_back :
+  forall t u w br wr n g done o,
+  RolloutTR.finalise_tr t u w br FrRollback wr n g = (done, o) -> Proofs.Finalising.finv FrRollback u n -> RolloutTR.co_br o <> br ->
+  TrafficMgr.n_route n = TrafficMgr.RNone /\ RolloutTR.co_writes o = [].
+Proof. exact Proofs.Finalising.rollback_touches_workload_after_traffic_back. Qed.
+Print Assumptions C10_rollback_touches_workload_only_after_traffic_is_back.
+
+(* supersession: the reset removes the BatchRelease only in a reconcile after whose writes the canary route is gone *)
+Theorem C10_supersession_removes_pods_only_after_traffic_is_back :
+  forall t u br n g done c,
+  RolloutTR.reset_tr t u br n g = (done, c) -> RolloutTR.ts_refs t = true ->
+  (su_fin u = FtRelease \/ su_fin u = FtRemoveCanarySvc -> TrafficMgr.n_route n = TrafficMgr.RNone) ->
+  RolloutTR.co_br c <> br -> TrafficMgr.n_route (TrafficMgr.apply_writes n (RolloutTR.co_writes c)) = TrafficMgr.RNone.
+Proof. exact Proofs.Finalising.supersession_removes_pods_after_traffic_back. Qed.
+Print Assumptions C10_supersession_removes_pods_only_after_traffic_is_back.
+
+(* a blue-green release refuses supersession: nothing moves until the user rolls back *)
+Theorem C10_bluegreen_refuses_supersession :
+  forall sp st w br m u x y,
+  RolloutBG.reconcile_bg sp st w br = ROut m ->
+  rp_phase st = RpProgressing -> rs_deleting sp = false ->
+  rp_prog st = Some (PrInRolling, x, y) -> rp_sub st = Some u ->
+  wl_exists w = true -> wl_consistent w = true -> rs_paused sp = false ->
+  sempty (su_canary_rev u) = false -> wl_canary w <> su_canary_rev u -> wl_in_rollback w = false ->
+  o_br m = br /\ exists s', o_status m = Some s' /\ rp_sub s' = Some u /\ rp_prog s' = rp_prog st.
+Proof. exact Proofs.RolloutBG.bg_refuses_supersession. Qed.
+Print Assumptions C10_bluegreen_refuses_supersession.
